@@ -221,8 +221,10 @@ int cholnzcnt(int_t neqns, int_t *xadj, int_t *adjncy,
 	   ---------------------------------------------------- */
 	parent = etpar[lownbr];
 	--weight[parent];
-	if (lflag == 1 || nchild[lownbr] >= 2) {
-	    /* lownbr is the first vertex of a supernode */
+	if (lflag == 1 || nchild[lownbr] != 1) {
+	    /* lownbr is the first vertex of a supernode; a vertex without
+	       children and without higher neighbors (an isolated vertex) is a
+	       supernode of its own, lownbr-1 is not its child */
 	    part_super_L[xsup] = lownbr - xsup;
 	    xsup = lownbr;
 	}
